@@ -64,24 +64,24 @@ CHECKS = {
     "C11": dict(level="exploration", ref="4 (C11)", technique="runtime monitor: generated configuration texts through the real loader/validator, reference acceptance predicate plus crash monitor on instantiation (child process per batch)",
                 text="Accepted configurations are checked against a reference structural predicate and then instantiated, evaluated and cycled by the daemon's own initialisation code in a "
                      "child process whose death is attributed to the logged case; documented-form configurations must be accepted."),
-    "C03": dict(level="fault_enumeration", ref="5 (C03)", technique="runtime monitor: final-state oracle on the device after enumerated stop points x injected restore faults (in-process controller.Run; process-level daemon with real signals)",
+    "C03": dict(level="fault_enumeration", ref="5 (C03)", engine="l2", technique="runtime monitor: final-state oracle on the device after enumerated stop points x injected restore faults (in-process controller.Run; process-level daemon with real signals)",
                 text="Regulation is stopped at enumerated points (n-th device I/O operation, delays falling into each wait, fatal stall error) while the virtual driver refuses / silently "
                      "ignores / pins the restore writes; the device state after shutdown must be 'original non-manual mode' or 'PWM 255'. The process-level layer sends 1..3 real "
                      "SIGTERM/SIGINT to the real daemon binary in each phase and checks exit status, absence of a Go panic trace and the same final-state predicate.",
                 note="Trusted base: harness, virtual driver (refuse = error without effect, ignore = success without effect, stick = other value stored), gosensors stand-in; the "
                      "controller's fixed waits are divided by a time scale (tick rates unchanged). SIGKILL / power loss are outside the statement."),
-    "C09": dict(level="fault_enumeration", ref="5 (C09)", technique="runtime monitor: crash monitor (child process per batch) plus liveness-or-restored oracle under enumerated I/O faults on a running closed loop",
+    "C09": dict(level="fault_enumeration", ref="5 (C09)", engine="l2", technique="runtime monitor: crash monitor (child process per batch) plus liveness-or-restored oracle under enumerated I/O faults on a running closed loop",
                 text="Single faults and pairs (component x kind x first hit x duration) are injected at the I/O boundary of a running controller + sensor monitor for every fan backend x "
                      "sensor backend x curve type; the process must survive and afterwards either keep evaluating the curve or have handed the fan back (C03 predicate).",
                 note="Trusted base: harness, virtual driver, scripts for cmd backends; faults during the initial analysis are outside the statement ('at any control cycle') and not injected."),
-    "C15": dict(level="exploration", ref="5 (C15)", technique="runtime monitor: offline checker over the fan-side write/read log of each start in generated start/reset/init sequences (in-process; process-level restarts of the real daemon)",
+    "C15": dict(level="exploration", ref="5 (C15)", engine="l2", technique="runtime monitor: offline checker over the fan-side write/read log of each start in generated start/reset/init sequences (in-process; process-level restarts of the real daemon and CLI)",
                 text="For every start in generated sequences the device-side log before the first regulation cycle is checked: no PWM sweep and no RPM-curve measurement when the fan "
                      "was characterised before and nothing was discarded; never a sweep with a configured pwmMap; no RPM-curve measurement with minPwm+maxPwm configured (known finding).",
                 note="Trusted base: harness, virtual driver; a start is emulated by fresh fan/controller objects on a real bbolt file; the process-level layer restarts the real binary."),
     "C16": dict(level="exploration", ref="5 (C16)", technique="runtime monitor: interval-overlap checker over a globally sequenced device event log, with a positive control run",
                 text="Several real controllers analyse their fans concurrently; analysis intervals are taken from a globally sequenced event log and must be pairwise disjoint with the "
                      "option off; the same workload with the option on must overlap (otherwise the case does not count)."),
-    "C17": dict(level="exploration", ref="5 (C17)", technique="runtime monitor: reference-model comparison of bound device paths on generated fake hwmon trees (in-process; process-level via detect / daemon start-up)",
+    "C17": dict(level="exploration", ref="5 (C17)", engine="l2", technique="runtime monitor: reference-model comparison of bound device paths on generated fake hwmon trees (in-process; process-level via detect / daemon start-up)",
                 text="Generated hwmon trees with permuted enumeration order are read through the real enumeration and binding code; every generated selector must bind exactly the "
                      "paths a reference resolution derives from the tree description, or fail with an error naming the entry - never panic, never bind another device.",
                 note="Trusted base: harness and the pure-Go gosensors stand-in (libsensors is not installed): its feature numbering mirrors libsensors'."),
